@@ -2,6 +2,7 @@
 //! C09: the search entry points are mutually coherent.
 
 use crate::common::*;
+use crate::wide;
 use crate::engine::{self, CompileFail, Out};
 use crate::refsweep::weight;
 use crate::spaces::Space;
@@ -173,14 +174,19 @@ pub fn run_c05(cx: &Ctx) -> i32 {
         });
         t
     });
-    let t = Tally::merge_all(tallies);
+    let mut t = Tally::merge_all(tallies);
+    let wsp = wide::wide_space(cx.quick());
+    let t4 = wide::sweep(&wsp, wide::Mode::Spans, 3);
+    t.count("wide_sweep_programs", t4.programs);
+    t.count("wide_sweep_evaluations", t4.evaluations);
+    t.merge(t4);
     finish(
         cx,
         t,
         Finish {
             rule: format!(
-                "every pattern of {} (no scoping filter: self-referential backreferences, conditions on open groups, empty loops, \\K and \\G anywhere) x every text over {:?} up to length {}; entry points: captures_from_pos at every char-boundary offset (all spans validated, Match::as_str / range / Index exercised), find_iter, captures_iter, split, splitn(0..3), try_replacen(0..2; constant, $0, [$1]); oracle: returns normally, spans satisfy start<=end<=len on char boundaries, iterators end within len+2 items; backtrack_limit 2000 and hook horizons so that a looping run is cut and reported; non-trivial = (pattern,text) where the pattern is VM-compiled and some offset has a match",
-                space.describe(), alphabet, max_len
+                "every pattern of {} (no scoping filter: self-referential backreferences, conditions on open groups, empty loops, \\K and \\G anywhere) x every text over {:?} up to length {}; entry points: captures_from_pos at every char-boundary offset (all spans validated, Match::as_str / range / Index exercised), find_iter, captures_iter, split, splitn(0..3), try_replacen(0..2; constant, $0, [$1]); oracle: returns normally, spans satisfy start<=end<=len on char boundaries, iterators end within len+2 items; backtrack_limit 2000 and hook horizons so that a looping run is cut and reported; non-trivial = (pattern,text) where the pattern is VM-compiled and some offset has a match; plus a {} (here: every span of the widened pattern valid)",
+                space.describe(), alphabet, max_len, wide::describe(&wsp, 3)
             ),
             exhaustive: true,
             bounds: jobj! {"space" => space.describe(), "max_text_len" => max_len, "node_bound" => k},
